@@ -323,6 +323,10 @@ class JsonSerSuite(Suite):
             if rng.random() < 0.25:
                 cases.append(Case("jsonbuf %d %d %s" % (cb, 0, spec), kind="buf0", spec=spec, pretty=False))
                 cases[-1].meta["sweep"] = True
+        # non-finite numbers at every position, whatever the NaN / Infinity options of the build
+        for t in ["f7fc00000", "d7ff8000000000001", "f7f800000", "dfff0000000000000", "[f7f800000,fff800000,f7fc00000,I1]", "{6e:d7ff8000000000001,69:d7ff0000000000000,78:f3fc00000}",
+                  "[[d7ff8000000000000],{6b:[fffc00000]}]"]:
+            cases.append(Case("jsonser %d t:%s" % (cb, t), kind="ser"))
         # deep documents: the pretty printer's indentation at every nesting level the library can hold (chains with a few siblings per level)
         for depth in list(range(1, 34)) + [60, 100]:
             for shape in range(3):
@@ -1071,7 +1075,8 @@ class FilterSuite(Suite):
         for i in range(n):
             flt = gen_filter(rng) if rng.random() < 0.9 else b"true"
             lim = rng.choice([10, 10, 10, 2, 3])
-            if rng.random() < 0.55:
+            nodouble = self.cfg.get("USE_DOUBLE", 1) == 0
+            if rng.random() < 0.55 and not nodouble:
                 # JSON input with keys from the same small set
                 def jv(d):
                     r = rng.random()
@@ -1104,7 +1109,8 @@ class FilterSuite(Suite):
                     if d > 3:
                         r *= 0.5
                     if r < 0.5:
-                        return rng.choice([("int", 1), ("int", -2), ("f32", 0x3FC00000), ("str", b"x"), ("bool", True), ("nil",), ("bin", b"\x01\x02"), ("ext", 1, b"ab"), ("int", 2 ** 40), ("f64", 0x3FB999999999999A)])
+                        return rng.choice([("int", 1), ("int", -2), ("f32", 0x3FC00000), ("str", b"x"), ("bool", True), ("nil",), ("bin", b"\x01\x02"), ("ext", 1, b"ab"), ("int", 2 ** 40), ("f64", 0x3FB999999999999A),
+                                           ("f64", 0x3FF8000000000000), ("f64", 0x400921FB54442D18)])
                     if r < 0.75:
                         return ("arr", [mv(d + 1) for _ in range(rng.choice([0, 1, 2, 3]))])
                     return ("map", [(("str", rng.choice(keys + (b"c",))), mv(d + 1)) for _ in range(rng.choice([0, 1, 2, 3]))])
@@ -1112,8 +1118,9 @@ class FilterSuite(Suite):
                 data = mpack.encode(v, rng)
                 if rng.random() < 0.2:
                     data = gens.mutate(rng, data)
-                cases.append(Case("mpde 0 %d %s %s" % (lim, hx(flt), hx(data)), fmt="m", text=data, flt=flt, lim=lim))
-                cases.append(Case("mpde 0 %d - %s" % (lim, hx(data)), fmt="mu", text=data, flt=None, lim=lim, pair_line=cases[-1].line))
+                mop = "mpde0" if nodouble else "mpde"
+                cases.append(Case("%s 0 %d %s %s" % (mop, lim, hx(flt), hx(data)), fmt="m", text=data, flt=flt, lim=lim))
+                cases.append(Case("%s 0 %d - %s" % (mop, lim, hx(data)), fmt="mu", text=data, flt=None, lim=lim, pair_line=cases[-1].line))
         return cases
 
     def canon_h(self, case, h):
@@ -1241,6 +1248,11 @@ class DepthSuite(Suite):
                         if flt != "-" and kind in (3, 7):
                             continue
                         cases.append(Case("depth %s %d %d %s %s" % (fmt, cb, L, flt, hx(txt)), L=L, d=d, kind=kind, fmt=fmt, closed=kind in (0, 1, 4, 5, 7), flt=flt))
+        for dd in (2, 3, 50, 5000):
+            for pre in (b"", b"\x91", b"\x81\xa1k", b"\x92\x01"):
+                for flt in ("-", hx(b"false"), hx(b'{"zz":true}'), hx(b"[false]"), hx(b"[{}]")):
+                    txt = pre + b"\x81" * dd + b"\xc0"
+                    cases.append(Case("depth m %d 10 %s %s" % (cb, flt, hx(txt)), L=10, d=0, kind=10, fmt="m", closed=False, flt=flt))
         if self.cfg.get("ENABLE_COMMENTS"):
             # runs of consecutive comments must not cost stack: kind 9, d = number of comments (the post hook compares the stack used)
             for k in (1, 10, 1000, 20000):
@@ -1620,6 +1632,11 @@ class JsonDocSuite(Suite):
             for pre in (0, 1):
                 for f in fails:
                     cases.append(Case("jsondoc %d 10 %d %s %s" % (cb, pre, f, hx(t)), text=t, fail=f))
+        # strings around and beyond the longest storable length: the builder's buffer must be released when its growth is refused
+        for k in (65535, 65536, 70000):
+            for t in (b'"' + b"s" * k + b'"', b'["a","' + b"s" * k + b'","b"]', b'{"' + b"k" * k + b'":1}', b'{k' + b"k" * k + b':1}'):
+                for f in ("-", "a3", "a12", "a14"):
+                    cases.append(Case("jsondoc %d 10 0 %s %s" % (cb, f, hx(t)), text=t, fail=f))
         for _ in range(n):
             r = rng.random()
             if r < 0.6:
@@ -1707,6 +1724,9 @@ class StreamSuite(Suite):
                     isnum = exp[0] in "UIQ"
                     if isnum and not sep:
                         sep = b"\n"
+                    if self.cfg.get("ENABLE_COMMENTS") and rng.random() < 0.5:
+                        # comments between documents, with every spelling of the closing star run
+                        sep += rng.choice([b"/**/", b"/***/", b"/****/", b"/* x **/", b"/** y ***/ ", b"//c\n", b"/* a */\n/* b **/"])
                     lead = gens.gen_ws(rng)
                     parts.append(lead + txt + sep)
                     docs.append((exp, len(lead) + len(txt), isnum))
@@ -2190,6 +2210,14 @@ class CmpSuite(Suite):
                 continue
             for s in scal:
                 cases.append(Case("cmps %s %s" % (spec(a), s), kind="vs", a=a, s=s))
+            if a[0] in "SL":
+                # the variant's own bytes seen through a view that shares its address (every prefix length): equal only at the full length
+                body = bytes.fromhex(a[1:])
+                if a[0] == "L":
+                    body = body.split(b"\x00")[0]
+                for k in range(0, len(body) + 1):
+                    for kd in ("pv", "pj"):
+                        cases.append(Case("cmps %s %s:%d" % (spec(a), kd, k), mline="cmps %s s:%s" % (spec(a), body[:k].hex()), kind="vs", a=a, s="s:" + body[:k].hex()))
         return cases
 
     @staticmethod
@@ -2531,7 +2559,7 @@ class StringKindSuite(HistSuite):
             seed = rng.getrandbits(40)
             nul_ok = rng.random() < 0.5
             # zero-terminated kinds (char*, linked const char*) cannot carry a NUL: in histories with NUL bytes those strings go through std::string
-            for k in ["sc", "sv", "sp", "sj", "sjl"]:
+            for k in ["sc", "sv", "sva", "sp", "sj", "sjl"]:
                 r2 = _random.Random(seed)
                 ops, exp = H.gen_history(r2, 50, geo_of(self.cfg), strkind=k, nul_ok=nul_ok)
                 for o, e in zip(ops, exp):
@@ -2656,6 +2684,12 @@ class LimitSuite(HistSuite):
         step("root 0 0"); step("toarr 1 0"); step("add 1 sc 6869", want="1"); step("obs 0", has="obs [S6869] n=1 z=1 o=0 ;"); step("cleardoc 0")
         step("root 0 0"); step("toobj 1 0"); step("setm 1 %s i 42" % okk, want="1"); step("setm 1 %s i 43" % badk, want="0")
         step("obs 0", has="obs {" + okk + ":I42} n=1 z=1 o=1 ;", hasnot=badk)
+        step("cleardoc 0"); step("obs 0", has="obs N n=0 z=0 o=0 ;")
+        # a string one byte too long whose length wraps to that of a string that IS in the document (the empty string; a short prefix)
+        step("root 0 0"); step("toarr 1 0"); step("add 1 sc -", want="1"); step("add 1 sc 6964", want="1"); step("add 1 sc " + bad, want="0")
+        step("add 1 sc 6964" + "78" * (L + 1), want="0"); step("obs 0", has="obs [S,S6964] n=1 z=2 o=1 ;")
+        step("cleardoc 0"); step("root 0 0"); step("toobj 1 0"); step("setm 1 6964 i 1", want="1"); step("setm 1 %s i 2" % ("6964" + "78" * (L + 1)), want="0")
+        step("obs 0", has="obs {6964:I1} n=1 z=1 o=1 ;")
         step("cleardoc 0"); step("ledger")
         return E
 
